@@ -16,6 +16,10 @@ CLAIMED["C03"] = dict(cat="fault_enumeration",
    text="For each command kind (backup first/next, forget, prune mark/instant/delete-marked, repair index +/- read-all, repair snapshots, rewrite+forget, merge, config change + key add, copy into) on a generated pre-state: one execution under a seeded gate schedule records the write/remove log; EVERY crash prefix of that log is opened with a fresh handle and every visible snapshot is read completely (old ones compared with their model); then single storage-op failures (no effect / lost acknowledgement) are injected at up to 12/24 positions under the same schedule: the command must return Err, never Ok, panic or hang, and the resulting states must satisfy the same oracle. Exhaustive over prefixes of each explored log; sampled over inputs, schedules and configs.",
    ref="5 C03", note="Storage ops are atomic in SimStore; the log is one observed linearisation per run of the concurrent writers (different schedules give different ones). instant-delete+early-delete-index and hot/cold are excluded as the property says.",
    tech="deterministic simulation: op-log crash-prefix enumeration + single-fault re-execution under the recorded schedule")
+CLAIMED["C02"] = dict(cat="exploration",
+   text="Seeded simulation of histories over {backup of an edited source, stale-index double backup (duplicate blobs), crashed backup (unreferenced packs), duplicated index entry, forget subset, prune with options from the whole option grid, clock advance across keep-delete/keep-pack boundaries on the simulated clock, resurrect a forgotten snapshot then prune}; after every prune each remaining snapshot is read back against its model, check(read_data) must be clean, an independent decoder verifies that every referenced blob is in an unmarked existing pack, and packs whose mark is younger than keep-delete must still exist (non-instant prunes). Part of the backups and prunes run under seeded gate schedules.",
+   ref="5 C02", note="early_delete_index is never set; instant_delete is documented to remove already-marked packs, so the keep-delete clause is asserted for non-instant prunes only. Trusted: the simulator's own pack/index decoder and the FsModel comparison.",
+   tech="deterministic simulation: generated operation histories on a simulated clock, per-step reference-model read-back + independent store audit")
 NOT_YET = {}
 NA = {
  "C09": "pure function of its arguments (snapshot list, keep options, explicit 'now'): no schedule, clock read, I/O, fault or history for a simulator to own; see DESIGN.md section 6",
